@@ -420,7 +420,8 @@ func Prelude() string {
 (define-fun i2f ((x Int)) Real (ite (<= (iabs x) 9007199254740992) (to_real x) (rnd.i2f x)))
 (declare-fun u.pow (Real Real) Real)
 (define-fun rpow2 ((k Int)) Real (ite (>= k 0) (to_real (pow2 k)) (/ 1.0 (to_real (pow2 (- k))))))
-(define-fun f.pow ((b Real) (y Real)) Real (ite (and (= b 2.0) (is_int y) (<= (- 126.0) y) (<= y 126.0)) (rpow2 (to_int y)) (u.pow b y)))
+(define-fun rpow10 ((k Int)) Real (ite (= k 0) 1.0 (ite (= k 1) 10.0 (ite (= k 2) 100.0 (ite (= k 3) 1000.0 (ite (= k 4) 10000.0 (ite (= k 5) 100000.0 (ite (= k 6) 1000000.0 (ite (= k 7) 10000000.0 (ite (= k 8) 100000000.0 (ite (= k 9) 1000000000.0 (ite (= k 10) 10000000000.0 (ite (= k 11) 100000000000.0 (ite (= k 12) 1000000000000.0 0.0))))))))))))))
+(define-fun f.pow ((b Real) (y Real)) Real (ite (and (= b 2.0) (is_int y) (<= (- 126.0) y) (<= y 126.0)) (rpow2 (to_int y)) (ite (and (= b 10.0) (is_int y) (<= 0.0 y) (<= y 12.0)) (rpow10 (to_int y)) (u.pow b y))))
 (declare-fun u.mod (Real Real) Real)
 (define-fun f.mod ((a Real) (b Real)) Real (ite (and (is_int a) (is_int b) (> b 0.0) (< (rabs a) 9007199254740992.0) (< b 9007199254740992.0)) (to_real (tmod (to_int a) (to_int b))) (u.mod a b)))
 `)
